@@ -1,6 +1,8 @@
 package main
 
 import (
+	"strings"
+
 	"github.com/hack-pad/hackpadfs"
 	"verif/harness/engine"
 	"verif/harness/fsad"
@@ -23,6 +25,20 @@ func mkfs(kind string) func() (hackpadfs.FS, func(), error) {
 func init() {
 	// FSCore.tla: namespace operations
 	modules["fscore"] = func(kind string, o *Opts) engine.Adapter {
+		if strings.HasPrefix(kind, "sub=") {
+			// sub=<dir>=<base> or nested sub=<dir>=sub=<dir>=<base>: twin run of a Sub view against its parent (C07)
+			parts := strings.Split(kind, "=")
+			sc := fsad.SubConfig{PropSub: o.attr("sub", "C07")}
+			i := 0
+			for i+1 < len(parts) && parts[i] == "sub" {
+				sc.Dirs = append(sc.Dirs, parts[i+1])
+				i += 2
+			}
+			sc.Base = parts[i]
+			sc.Config = fsad.Config{AdapterName: kind, PropState: o.attr("state", "-"), PropErr: o.attr("err", "C05"), PropWF: o.attr("wf", "-"),
+				PropList: o.attr("list", "C16"), Names: o.Names, Depth: o.Depth}
+			return &fsad.SubAdapter{Cfg: sc}
+		}
 		cfg := fsad.Config{AdapterName: kind, PropState: o.attr("state", "C01"), PropErr: o.attr("err", "C05"), PropWF: o.attr("wf", "C03"),
 			PropList: o.attr("list", "C16"), Names: o.Names, Depth: o.Depth, MkFS: mkfs(kind)}
 		if kind == "osref" {
